@@ -67,6 +67,12 @@ def parseTok (s : String) : Option TokReply :=
 /-- The one realm of the generator's table that `url.Parse` refuses starts with ':'. -/
 def realmOk (r : Bytes) : Bool := r.head? != some 58
 
+/-- The text `net/url` prints for a realm it has parsed: the realms of the generator's table print back
+unchanged except that a backslash (in the path) comes out as `%5C`. -/
+def urlText : Bytes → Bytes
+  | [] => []
+  | c :: r => if c = 92 then 37 :: 53 :: 67 :: urlText r else c :: urlText r
+
 def showAuth : AuthHdr → String
   | .none => "-"
   | .bearer t => "B," ++ tokS t.val
@@ -74,9 +80,9 @@ def showAuth : AuthHdr → String
 
 def showMsg : Msg → String
   | .registry h a => "R," ++ tokS h ++ "," ++ showAuth a
-  | .tokenPOST realm _ rt sc sv => "P," ++ tokS realm ++ "," ++ tokS rt.val ++ "," ++ tokS sc ++ "," ++ tokS sv
+  | .tokenPOST realm _ rt sc sv => "P," ++ tokS (urlText realm) ++ "," ++ tokS rt.val ++ "," ++ tokS sc ++ "," ++ tokS sv
   | .tokenGET realm _ b sc sv =>
-    "G," ++ tokS realm ++ "," ++
+    "G," ++ tokS (urlText realm) ++ "," ++
       (match b with
         | some (u, p) => "U," ++ tokS u.val ++ "," ++ tokS p.val
         | none => "-") ++ "," ++ tokS sc ++ "," ++ tokS sv
@@ -94,7 +100,7 @@ def showHeader : Option Challenge.AuthHeader → String
     if h.scheme = Challenge.sBearer then
       let realm := Challenge.param h Challenge.kRealm
       if realm = [] || !realmOk realm then "bearer-unusable"
-      else "bearer " ++ tokS realm ++ " " ++ tokS (Challenge.param h Challenge.kService) ++ " " ++
+      else "bearer " ++ tokS (urlText realm) ++ " " ++ tokS (Challenge.param h Challenge.kService) ++ " " ++
         tokS (Challenge.param h Challenge.kScope)
     else "basic"
 
